@@ -766,7 +766,7 @@ class AstInterpreter(InterpreterBase):
                 self.dataflow_dag.add_edge(arg, cur)
             for k, v in cur.args.kwargs.items():
                 self.dataflow_dag.add_edge(v, cur)
-        for attr in ['source_object', 'left', 'right', 'items', 'iobject', 'index', 'condition']:
+        for attr in ['source_object', 'left', 'right', 'items', 'iobject', 'index', 'condition', 'trueblock', 'falseblock']:
             if hasattr(cur, attr):
                 assert isinstance(getattr(cur, attr), mparser.BaseNode)
                 self.dataflow_dag.add_edge(getattr(cur, attr), cur)
